@@ -34,24 +34,31 @@ def perm_dict(d: Dict[str, Any], idx) -> Dict[str, Any]:
 
 
 def config(V: List[Any], tvals: List[Any], P: Dict[str, Any], *, element=None, collection="IntColl", expr_a="t + s", expr_b="m", mode="combinatorial", broadcast=False,
-           proc1=None, extra_node=False, swap_nodes=False, run_space: Optional[Dict[str, Any]] = None, three_vars=True, seq_var_name="t"):
+           proc1=None, extra_node=False, swap_nodes=False, run_space: Optional[Dict[str, Any]] = None, three_vars=True, seq_var_name="t", two_sweeps=False, unref_vals=None):
     """P maps a mapping name to a permutation index (absent = reference order)."""
     from vt import lib
 
     element = element or lib.OpTwo
     proc1 = proc1 or lib.OpNest
     opts2 = perm_dict({"p": V[2], "q": V[3]}, P.get("opts2", 0))
-    opts1 = perm_dict({"x": opts2, "y": V[4], "z": [V[5], {"w": V[6]}]}, P.get("opts1", 0))
+    in_list = perm_dict({"w": V[6], "u": V[7]}, P.get("dict_in_list", 0))  # a mapping that sits inside a list
+    opts1 = perm_dict({"x": opts2, "y": V[4], "z": [V[5], in_list]}, P.get("opts1", 0))
     n0 = perm_dict({"processor": lib.SrcD, "parameters": {"value": V[0]}}, P.get("node0", 0))
     n1 = perm_dict({"processor": proc1, "parameters": {"opts": opts1, "k": V[1]}}, P.get("node1", 0))
     variables: Dict[str, Any] = {seq_var_name: {"values": list(tvals)}, "s": {"from_context": "sv"}}
     if three_vars:
         variables["m"] = {"from_context": "mv"}
+    if unref_vals is not None:
+        variables["u"] = {"values": list(unref_vals)}  # declared, published as u_values, read by no expression
     variables = perm_dict(variables, P.get("variables", 0))
     exprs = perm_dict({"a": expr_a, "b": expr_b}, P.get("parameters", 0)) if three_vars else {"a": expr_a}
     sweep = perm_dict({"variables": variables, "parameters": exprs, "mode": mode, "broadcast": broadcast, "collection": collection}, P.get("sweepkeys", 0))
     n2 = perm_dict({"processor": element, "derive": {"parameter_sweep": sweep}, "parameters": {}}, P.get("node2", 0))
     nodes = [n0, n1, n2]
+    if two_sweeps:
+        # a second sweep node of the same kind (same generated class name) with another definition
+        sweep2 = {"variables": {"q": {"values": [V[2], V[3]]}}, "parameters": {"a": "2 * q"}, "mode": "combinatorial", "broadcast": False, "collection": collection}
+        nodes = [n0, n1, n2, {"processor": lib.OpSum, "parameters": {}}, {"processor": element, "derive": {"parameter_sweep": sweep2}, "parameters": {}}]
     if swap_nodes:
         nodes = [n0, {"processor": lib.OpAddDef, "parameters": {"addend": V[1]}}, {"processor": lib.OpAff, "parameters": {"factor": V[7]}}][:3]
         nodes = [nodes[0], nodes[2], nodes[1]]
